@@ -181,7 +181,13 @@ pub fn judge_binary(data: &[u8], how: &str, decs: &[DecType], cx: &mut Cx) -> BT
                             cx.push(viol("C13", format!("C13/consumed/{d}"), format!("advanced by {} instead of {n}", out.consumed)));
                         }
                     }
-                    (None, None) => {}
+                    (None, None) => {
+                        // the same item fails the same way whatever follows it
+                        if alone.err != out.err {
+                            cx.push(viol("C13", format!("C13/error-depends-on-suffix/{d}"),
+                                format!("item {} alone fails with {:?}, followed by {} bytes with {:?}", hex(&data[..n]), alone.err, data.len() - n, out.err)));
+                        }
+                    }
                     (Some(_), None) => cx.push(viol("C13", format!("C13/outcome-depends-on-suffix/{d}/item-accepted-alone"),
                         format!("item of {n} bytes accepted alone, rejected when followed by {} bytes: {}", data.len() - n, hex(data)))),
                     (None, Some(_)) => cx.push(viol("C13", format!("C13/outcome-depends-on-suffix/{d}/item-rejected-alone"), hex(data))),
@@ -193,6 +199,12 @@ pub fn judge_binary(data: &[u8], how: &str, decs: &[DecType], cx: &mut Cx) -> BT
         if let Some(v) = &out.view {
             cx.stat(&format!("c14:presence-mask:{:02x}", crate::owner::presence_mask(v)));
             check_authentic(v, dec, how, cx);
+            // C01: the signature binds the record's bytes: an accepted input that is not the
+            // encoding of the fields it reports is an accepted alteration of a signed record
+            if v.encoded.as_slice() != &data[..out.consumed.min(data.len())] {
+                cx.push(viol("C01", format!("C01/accepted-input-is-not-what-was-signed/{d}/{how}"),
+                    format!("accepted {} but the record it reports encodes to {}", hex(&data[..out.consumed.min(data.len())]), hex(&v.encoded))));
+            }
             // C04 receiver side
             cx.stat("c04:accepted-input-compared");
             if v.encoded.as_slice() != &data[..out.consumed.min(data.len())] {
@@ -341,7 +353,12 @@ pub fn judge_stream(items: &[Vec<u8>], suffix: &[u8], dec: DecType, cx: &mut Cx)
                     break;
                 }
             }
-            (None, None) => {}
+            (None, None) => {
+                if alone[idx].err != out.err {
+                    cx.push(viol("C13", format!("C13/error-depends-on-suffix/{d}"),
+                        format!("frame {idx} {} alone fails with {:?}, in the stream with {:?}", hex(it), alone[idx].err, out.err)));
+                }
+            }
             (Some(_), None) => {
                 cx.push(viol("C13", format!("C13/outcome-depends-on-suffix/{d}/item-accepted-alone"),
                     format!("frame {idx} ({} bytes) accepted alone but rejected with {} bytes following: {}", it.len(), buf.len() - pos - it.len(), hex(&buf[pos..]))));
